@@ -983,6 +983,22 @@ impl MonCfg {
         trace: false,
         full_conservation: true,
     };
+    /// sanitizer runs: the sanitizer is the oracle, keep only the cheap monitors
+    pub const LEAN: MonCfg = MonCfg {
+        views: false,
+        mut_views: false,
+        reloc: false,
+        allocs: false,
+        trace: false,
+        full_conservation: true,
+    };
+    pub fn main(lean: bool) -> MonCfg {
+        if lean {
+            MonCfg::LEAN
+        } else {
+            MonCfg::FULL
+        }
+    }
     pub const LIGHT: MonCfg = MonCfg {
         views: false,
         mut_views: false,
